@@ -397,7 +397,13 @@ NoEndlessLoop == pn \notin {"Take: endless loop", "Close: endless loop"}
 
 EmitTerminal == (Hist /\ Terminal) =>
   PrintT("@@" \o ToJson([cap |-> Capacity, kcap |-> KeyCapacity, exp |-> Expire, steps |-> hist,
-                         final |-> FinalAnom, leaked |-> Leaked]))
+                         term |-> TRUE, final |-> FinalAnom, leaked |-> Leaked]))
+
+\* ACTION_CONSTRAINT: emit every transition TLC generates (also those into states already seen), as the
+\* behaviour consisting of the history of its source state (with VIEW view: a shortest one) and the step
+EmitEdge == Hist =>
+  PrintT("@@" \o ToJson([cap |-> Capacity, kcap |-> KeyCapacity, exp |-> Expire, steps |-> hist',
+                         term |-> Terminal', final |-> FinalAnom', leaked |-> Leaked']))
 
 \* scenario queries (TLC is asked to violate them)
 NoAnomaly == anom = {}
